@@ -134,6 +134,11 @@ class Sched:
         self.switches = 0
         self.local = {}  # per-execution scratch for harness / simproc layers
         self.exit_hooks = []
+        # crash points (simproc): crashable(ptag) -> signal number or None; every scheduling point of such a
+        # process gets an extra free choice "the process is killed here"
+        self.crashable = None
+        self.crash_fn = None
+        self.crashes_left = 0
 
     # ------------------------------------------------------------ threads
     def me(self) -> SimThread | None:
@@ -225,6 +230,11 @@ class Sched:
 
     def _decide(self, kind, info):
         me = self.cur
+        if self.crashes_left > 0 and me is not None and not me.dead and me.state != FINISHED and kind != 'exit':
+            sig = self.crashable(me.ptag)
+            if sig and self.choose(2, 'crash') == 1:
+                self.crashes_left -= 1
+                self.crash_fn(self, me.ptag, sig)
         if self.monitor is not None:
             msg = self.monitor(self)
             if msg:
@@ -260,6 +270,8 @@ class Sched:
         if t is not me:
             self.switches += 1
         self._switch_to(t)
+        if me is not None and me.dead and self.me() is me:
+            raise Abort()
 
     def _switch_to(self, t):
         me = self.me()
